@@ -610,8 +610,14 @@ def part_from_matchfile(
             technical=[],
         )
 
+        # all trailing digits of the attribute: "staff12" is staff 12
         staff_nr = next(
-            (a[-1] for a in note.ScoreAttributesList if a.startswith("staff")), None
+            (
+                a[len(a.rstrip("0123456789")) :]
+                for a in note.ScoreAttributesList
+                if a.startswith("staff")
+            ),
+            None,
         )
         try:
             note_attributes["staff"] = int(staff_nr)
